@@ -574,9 +574,10 @@ func lawFuzzMain(args []string) {
 	fs := flag.NewFlagSet("lawfuzz", flag.ExitOnError)
 	seed := fs.Int64("seed", 1, "")
 	n := fs.Int("n", 2000, "")
+	parity := fs.Bool("parity", false, "C10: the same members under both number decodings")
 	fs.Parse(args)
 	rnd := rand.New(rand.NewSource(*seed))
-	base := []float64{0.3, 0.1 + 0.2, math.Nextafter(0.3, 1), math.Nextafter(0.3, 0), 1, math.Nextafter(1, 2), 1e-320, 0, 1e308, -1e308, 9007199254740992, 9007199254740993, 2.5, -0.0, 100, 99.99999999999999}
+	base := []float64{9.5e18, -9.5e18, 1e19, 18446744073709551616, 9223372036854775807, -9223372036854775808, 0.3, 0.1 + 0.2, math.Nextafter(0.3, 1), math.Nextafter(0.3, 0), 1, math.Nextafter(1, 2), 1e-320, 0, 1e308, -1e308, 9007199254740992, 9007199254740993, 2.5, -0.0, 100, 99.99999999999999}
 	type out struct {
 		Checked    int      `json:"checked"`
 		Violations []string `json:"violations"`
@@ -613,6 +614,38 @@ func lawFuzzMain(args []string) {
 			}
 		}
 		lit := fmtNum(base[rnd.Intn(len(base))])
+		if *parity {
+			// C10: numbers compare by value whatever their decoding -- integers beyond int64 and 2^53, tiny and huge
+			// magnitudes, spelled as plain digits (no exponent) where they are integers
+			parts := []string{}
+			for _, f := range nums {
+				if f == math.Trunc(f) && math.Abs(f) < 1e21 {
+					parts = append(parts, strconv.FormatFloat(f, 'f', 0, 64))
+				} else {
+					parts = append(parts, fmtNum(f))
+				}
+			}
+			text := "[" + strings.Join(parts, ",") + "]"
+			d1, e1 := decodeDoc(text, false)
+			d2, e2 := decodeDoc(text, true)
+			if e1 != nil || e2 != nil {
+				continue
+			}
+			for _, op := range []string{"==", "!=", "<", "<=", ">", ">="} {
+				for _, q := range []string{"@" + op + lit, lit + op + "@", "@" + op + "$[0]", "$[0]" + op + "@"} {
+					s1, ok1 := sel(q, d1, d1.([]interface{}))
+					s2, ok2 := sel(q, d2, d2.([]interface{}))
+					o.Checked++
+					if !ok1 || !ok2 || !sameIdx(s1, s2) {
+						o.Violations = append(o.Violations, fmt.Sprintf("on %s: [?(%s)] selects %v when numbers are float64 and %v when they are json.Number (%v %v)", text, q, s1, s2, ok1, ok2))
+					}
+				}
+			}
+			if len(o.Violations) > 5 {
+				break
+			}
+			continue
+		}
 		for _, number := range []bool{false, true} {
 			parts := []string{}
 			for _, f := range nums {
